@@ -303,8 +303,9 @@ class Check:
         known findings; `detail` is the replay content."""
         for k in self.known:
             if k.get("signature") == signature:
-                self.known_hit[signature] = self.known_hit.get(signature, 0) + 1
-                if self.known_hit[signature] == 1:
+                hk = _k(signature)
+                self.known_hit[hk] = self.known_hit.get(hk, 0) + 1
+                if self.known_hit[hk] == 1:
                     log(f"KNOWN-FINDING: property={self.pid} {k.get('what', signature)}")
                 return False
         if any(v[0] == signature for v in self.violations):
